@@ -2155,6 +2155,12 @@ generalized_affine_image(const Variable var,
                            "r is the disequality relation symbol");
   }
 
+  // A non-zero modulus is only meaningful for the equality relation symbol.
+  if (relsym != EQUAL && modulus != 0) {
+    throw_invalid_argument("generalized_affine_image(v, r, e, d, m)",
+                           "r != EQUAL && m != 0");
+  }
+
   // Any image of an empty grid is empty.
   if (marked_empty()) {
     return;
@@ -2163,11 +2169,6 @@ generalized_affine_image(const Variable var,
   // If relsym is not EQUAL, then we return a safe approximation
   // by adding a line in the direction of var.
   if (relsym != EQUAL) {
-
-    if (modulus != 0) {
-      throw_invalid_argument("generalized_affine_image(v, r, e, d, m)",
-                             "r != EQUAL && m != 0");
-    }
 
     if (!generators_are_up_to_date()) {
       minimize();
@@ -2355,6 +2356,12 @@ generalized_affine_image(const Linear_Expression& lhs,
                            "r is the disequality relation symbol");
   }
 
+  // A non-zero modulus is only meaningful for the equality relation symbol.
+  if (relsym != EQUAL && modulus != 0) {
+    throw_invalid_argument("generalized_affine_image(e1, r, e2, m)",
+                           "r != EQUAL && m != 0");
+  }
+
   // Any image of an empty grid is empty.
   if (marked_empty()) {
     return;
@@ -2363,11 +2370,6 @@ generalized_affine_image(const Linear_Expression& lhs,
   // If relsym is not EQUAL, then we return a safe approximation
   // by adding a line in the direction of var.
   if (relsym != EQUAL) {
-
-    if (modulus != 0) {
-      throw_invalid_argument("generalized_affine_image(e1, r, e2, m)",
-                             "r != EQUAL && m != 0");
-    }
 
     if (!generators_are_up_to_date()) {
       minimize();
@@ -2495,6 +2497,12 @@ generalized_affine_preimage(const Linear_Expression& lhs,
                            "r is the disequality relation symbol");
   }
 
+  // A non-zero modulus is only meaningful for the equality relation symbol.
+  if (relsym != EQUAL && modulus != 0) {
+    throw_invalid_argument("generalized_affine_preimage(e1, r, e2, m)",
+                           "r != EQUAL && m != 0");
+  }
+
   // Any preimage of an empty grid is empty.
   if (marked_empty()) {
     return;
@@ -2503,11 +2511,6 @@ generalized_affine_preimage(const Linear_Expression& lhs,
   // If relsym is not EQUAL, then we return a safe approximation
   // by adding a line in the direction of var.
   if (relsym != EQUAL) {
-
-    if (modulus != 0) {
-      throw_invalid_argument("generalized_affine_preimage(e1, r, e2, m)",
-                             "r != EQUAL && m != 0");
-    }
 
     if (!generators_are_up_to_date()) {
       minimize();
